@@ -768,9 +768,10 @@ Open Scope string_scope.
 (** * Part D: what one logical line can do to the output and the table *)
 
 (** the text emitted for an ordinary line *)
-Definition emit_text (ms : list macro) (out buf : string) : string :=
+Definition emit_text (ms : list macro) (out buf : string) (inc : option (string * N)) : string :=
   let new_line := replace_all ms out in
-  if negb (ends_with nl new_line) && ends_with nl buf then new_line ++ nl else new_line.
+  let included := match inc with Some _ => true | None => false end in
+  if negb (ends_with nl new_line) && (ends_with nl buf || included) then new_line ++ nl else new_line.
 
 (** the state handed to an included file, and the state after it *)
 Definition inc_pre (ps : pstate) (h : loc) (iname : string) : pstate :=
@@ -817,7 +818,7 @@ Lemma line_step_cases rec fs fname inc asm p line buf p' :
   exists out ins sc,
     scan_line asm buf (c_scan (p_ctx p)) = ScanOk out ins sc /\
     (quiet_step (c_macros (p_ctx p)) out p p' \/
-     p' = emit (set_scan p sc) (fname, line, inc) (emit_text (c_macros (p_ctx p)) out buf) \/
+     p' = emit (set_scan p sc) (fname, line, inc) (emit_text (c_macros (p_ctx p)) out buf inc) \/
      include_step rec fs (c_macros (p_ctx p)) out (set_scan p sc) (fname, line, inc) p').
 Proof.
   intros H. unfold line_step in H.
@@ -922,20 +923,21 @@ Proof.
   rewrite ends_nl_app_nl in E. discriminate.
 Qed.
 
-Lemma emit_text_line (ms : list macro) (out buf : string) :
+Lemma emit_text_line (ms : list macro) (out buf : string) (inc : option (string * N)) :
   macros_ok ms -> one_line out = true ->
-  one_line (emit_text ms out buf) = true /\
-  (ends_nl buf = true -> ends_nl (emit_text ms out buf) = true).
+  one_line (emit_text ms out buf inc) = true /\
+  (ends_nl buf = true \/ inc <> None -> ends_nl (emit_text ms out buf inc) = true).
 Proof.
   intros Hms Ho. unfold emit_text. cbv zeta.
   pose proof (replace_all_one_line ms out Hms Ho) as Hn.
   rewrite !ends_with_nl.
   destruct (ends_nl (replace_all ms out)) eqn:E; cbn [negb andb].
   - split; [exact Hn|auto].
-  - destruct (ends_nl buf) eqn:Eb.
+  - destruct (ends_nl buf || match inc with Some _ => true | None => false end) eqn:Eb.
     + split; [|intros _; apply ends_nl_app_nl].
       rewrite one_line_nlfree_app; [reflexivity|]. apply one_line_not_ends; assumption.
-    + split; [exact Hn|discriminate].
+    + split; [exact Hn|]. apply orb_false_iff in Eb. destruct Eb as [Eb1 Eb2].
+      intros [Hb|Hi]; [rewrite Hb in Eb1; discriminate|]. destruct inc; [discriminate|congruence].
 Qed.
 
 (** ** quiet steps keep the macro table newline-free *)
@@ -961,7 +963,8 @@ Qed.
 Definition rec_ok (rec : string -> option (string * N) -> bool -> list string -> pstate -> presult)
            (fs : files) : Prop :=
   forall iname inc a ilines p p2,
-    find_file fs iname = Some ilines -> Sinv p -> rec iname inc a ilines p = POk p2 -> Sinv p2.
+    find_file fs iname = Some ilines -> inc <> None -> Sinv p ->
+    rec iname inc a ilines p = POk p2 -> Sinv p2.
 
 Lemma marker_line (s : string) : nlfree s = true -> one_line (s ++ nl) = true /\ ends_nl (s ++ nl) = true.
 Proof. intros H. split; [rewrite one_line_nlfree_app by exact H; reflexivity|apply ends_nl_app_nl]. Qed.
@@ -1003,7 +1006,7 @@ Proof. intros H. exact H. Qed.
 Lemma line_step_L1 rec fs fname inc asm p line buf p' :
   rec_ok rec fs -> Sinv p -> one_line buf = true ->
   line_step rec fs fname inc asm p line buf = POk p' ->
-  Winv p' /\ (ends_nl buf = true -> Sinv p').
+  Winv p' /\ (ends_nl buf = true \/ inc <> None -> Sinv p').
 Proof.
   intros Hrec HS Hbuf H.
   apply line_step_cases in H. destruct H as [out [ins [sc [Hscan H]]]].
@@ -1013,19 +1016,19 @@ Proof.
   - assert (HS' : Sinv p').
     { split; [eapply quiet_macros_ok; eauto|]. destruct Hq as [Hq1 [Hq2 _]]. rewrite Hq1, Hq2. auto. }
     split; [apply Sinv_Winv; exact HS'|auto].
-  - subst p'. destruct (emit_text_line _ out buf Hms Hout) as [Hol Hen].
-    destruct (ends_nl (emit_text (c_macros (p_ctx p)) out buf)) eqn:E.
-    + assert (HS' : Sinv (emit (set_scan p sc) (fname, line, inc) (emit_text (c_macros (p_ctx p)) out buf))).
+  - subst p'. destruct (emit_text_line _ out buf inc Hms Hout) as [Hol Hen].
+    destruct (ends_nl (emit_text (c_macros (p_ctx p)) out buf inc)) eqn:E.
+    + assert (HS' : Sinv (emit (set_scan p sc) (fname, line, inc) (emit_text (c_macros (p_ctx p)) out buf inc))).
       { apply Sinv_emit_full; [apply Sinv_set_scan; exact HS|exact Hol|exact E]. }
       split; [apply Sinv_Winv; exact HS'|auto].
     + split.
       * apply Winv_emit_partial; [apply Sinv_set_scan; exact HS|exact Hol|exact E].
-      * intros Hb. discriminate (Hen Hb).
+      * intros Hb. specialize (Hen Hb). congruence.
   - destruct Hi as [e [c [iname [tl [ilines [p2 [Hdp [Hso [Hff [Hr ->]]]]]]]]]].
     assert (Hn : nlfree iname = true) by (eapply include_iname_nlfree; eauto).
     assert (HS' : Sinv (inc_post (set_scan p sc) (inc_pre (set_scan p sc) (fname, line, inc) iname) p2
                                  (fname, line, inc) iname)).
-    { apply Sinv_inc_post. eapply Hrec; [exact Hff| |exact Hr].
+    { apply Sinv_inc_post. refine (Hrec _ _ _ _ _ _ Hff _ _ Hr); [discriminate|].
       apply Sinv_inc_pre; [apply Sinv_set_scan; exact HS|exact Hn]. }
     split; [apply Sinv_Winv; exact HS'|auto].
 Qed.
@@ -1057,11 +1060,11 @@ Proof. intros [_ H]. exact H. Qed.
 
 Lemma splice_props (f : nat) : forall buf rest extra b e r,
   splice f buf rest extra = (b, e, r) ->
-  one_line buf = true -> lines_single rest -> lines_terminated (buf :: rest) ->
-  one_line b = true /\ lines_single r /\ lines_terminated (b :: r) /\
+  one_line buf = true -> lines_single rest ->
+  one_line b = true /\ lines_single r /\
   (e + N.of_nat (List.length r) = extra + N.of_nat (List.length rest))%N.
 Proof.
-  induction f; intros buf rest extra b e r H Hb Hs Ht; cbn [splice] in H.
+  induction f; intros buf rest extra b e r H Hb Hs; cbn [splice] in H.
   { inversion H; subst. auto. }
   cbv zeta in H.
   destruct (ends_with ("\" ++ nl) buf || ends_with ("\" ++ cr ++ nl) buf) eqn:Econt.
@@ -1076,23 +1079,37 @@ Proof.
     as stripped.
   destruct rest as [|l r0].
   - inversion H; subst b e r. split; [apply nlfree_one_line; exact Hstr|].
-    split; [constructor|]. split; [split; exact I|reflexivity].
+    split; [constructor|reflexivity].
   - inversion Hs as [|l' r' Hl1 Hr1]; subst.
     apply IHf in H.
-    + destruct H as [G1 [G2 [G3 G4]]]. split; [exact G1|]. split; [exact G2|]. split; [exact G3|].
+    + destruct H as [G1 [G2 G4]]. split; [exact G1|]. split; [exact G2|].
       cbn [List.length]. lia.
     + rewrite one_line_nlfree_app by exact Hstr. assumption.
     + assumption.
-    + destruct Ht as [_ [Hl Hr0]]. split; [|exact Hr0].
-      destruct r0; [exact I|]. rewrite ends_nl_app; [exact Hl|]. apply ends_nl_nonempty. exact Hl.
+Qed.
+
+Lemma splice_term (f : nat) : forall buf rest extra b e r,
+  splice f buf rest extra = (b, e, r) ->
+  lines_terminated (buf :: rest) -> lines_terminated (b :: r).
+Proof.
+  induction f; intros buf rest extra b e r H Ht; cbn [splice] in H.
+  { inversion H; subst. auto. }
+  cbv zeta in H.
+  destruct (ends_with ("\" ++ nl) buf || ends_with ("\" ++ cr ++ nl) buf).
+  2:{ inversion H; subst. auto. }
+  destruct rest as [|l r0].
+  - inversion H; subst b e r. split; exact I.
+  - apply IHf in H; [exact H|].
+    destruct Ht as [_ [Hl Hr0]]. split; [|exact Hr0].
+    destruct r0; [exact I|]. rewrite ends_nl_app; [exact Hl|]. apply ends_nl_nonempty. exact Hl.
 Qed.
 
 (** ** the lines of one file *)
 Lemma go_L1 rec fs fname inc asm (Hrec : rec_ok rec fs) :
   forall fuel ls line p p',
-    lines_single ls -> lines_terminated ls -> Sinv p ->
+    lines_single ls -> inc <> None \/ lines_terminated ls -> Sinv p ->
     go rec fs fname inc asm fuel ls line p = POk p' ->
-    Winv p' /\ (closed_aux fuel ls -> Sinv p').
+    Winv p' /\ (inc <> None \/ closed_aux fuel ls -> Sinv p').
 Proof.
   induction fuel; intros ls line p p' Hs Ht HS H; cbn [go] in H.
   { inversion H; subst. split; [apply Sinv_Winv; exact HS|auto]. }
@@ -1101,20 +1118,23 @@ Proof.
   cbn [closed_aux].
   destruct (splice (S (List.length rest0)) l0 rest0 0%N) as [[buf extra] rest] eqn:Espl.
   inversion Hs; subst.
+  assert (Htr : inc <> None \/ lines_terminated (buf :: rest)).
+  { destruct Ht as [Hi|Ht]; [left; exact Hi|right]. eapply splice_term; [exact Espl|exact Ht]. }
   apply splice_props in Espl; try assumption.
-  destruct Espl as [Hb [Hsr [Htr _]]].
+  destruct Espl as [Hb [Hsr _]].
   destruct (line_step rec fs fname inc asm p (line + 1 + extra)%N buf) as [p1|] eqn:Estep; [|discriminate].
   apply line_step_L1 in Estep; try assumption. destruct Estep as [HW HSn].
   destruct rest as [|x r].
-  - assert (p' = p1) by (destruct fuel; cbn [go] in H; congruence). subst p'. auto.
-  - destruct Htr as [Hen Htr]. eapply IHfuel; [exact Hsr|exact Htr|apply HSn; exact Hen|exact H].
+  - assert (p' = p1) by (destruct fuel; cbn [go] in H; congruence). subst p'.
+    split; [exact HW|]. intros [Hi|Hc]; apply HSn; [right; exact Hi|left; exact Hc].
+  - assert (HS1 : Sinv p1).
+    { apply HSn. destruct Htr as [Hi|[Hen _]]; [right; exact Hi|left; exact Hen]. }
+    eapply IHfuel; [exact Hsr| |exact HS1|exact H].
+    destruct Htr as [Hi|[_ Htr]]; [left; exact Hi|right; exact Htr].
 Qed.
 
 (** ** whole files *)
-Definition files_ok (fs : files) : Prop :=
-  Forall (fun f => lines_single (snd f)) fs /\
-  Forall (fun f => lines_terminated (snd f)) fs /\
-  included_files_closed fs.
+Definition files_ok (fs : files) : Prop := Forall (fun f => lines_single (snd f)) fs.
 
 Lemma find_file_In (fs : files) (n : string) (v : list string) :
   find_file fs n = Some v -> exists k, In (k, v) fs.
@@ -1130,17 +1150,16 @@ Proof. intros H. exact H. Qed.
 
 Lemma process_L1 (fs : files) (Hfs : files_ok fs) :
   forall d fname inc asm lines p0 p,
-    lines_single lines -> lines_terminated lines -> Sinv p0 ->
+    lines_single lines -> inc <> None \/ lines_terminated lines -> Sinv p0 ->
     process d fs fname inc asm lines p0 = POk p ->
-    Winv p /\ (file_closed lines -> Sinv p).
+    Winv p /\ (inc <> None \/ file_closed lines -> Sinv p).
 Proof.
   induction d; intros fname inc asm lines p0 p Hs Ht HS H; cbn [process] in H; [discriminate|].
   eapply go_L1; [|exact Hs|exact Ht|apply Sinv_file_start; exact HS|exact H].
-  intros iname inc' a ilines q q2 Hff Hq Hr.
+  intros iname inc' a ilines q q2 Hff Hinc Hq Hr.
   destruct (find_file_In _ _ _ Hff) as [k Hin].
-  destruct Hfs as [F1 [F2 F3]].
-  unfold included_files_closed in F3. rewrite Forall_forall in F1, F2, F3.
-  eapply IHd; [apply (F1 _ Hin)|apply (F2 _ Hin)|exact Hq|exact Hr|apply (F3 _ Hin)].
+  unfold files_ok in Hfs. rewrite Forall_forall in Hfs.
+  eapply IHd; [apply (Hfs _ Hin)|left; exact Hinc|exact Hq|exact Hr|left; exact Hinc].
 Qed.
 
 Lemma Sinv_init defs : macros_single_line defs -> Sinv (mkP (init_ctx defs) "" [] Active []).
@@ -1345,66 +1364,58 @@ Open Scope string_scope.
 
 (** ** L1 *)
 
-(** The statement with only the two announced hypotheses is false.  Three witnesses. *)
+(** The statement with only the two announced hypotheses is false: witnesses (c) and (d) below.
 
-(** (a) an included file without final newline: its last line and the next line of the including
-    file are glued into one output line, with two table entries; every later line is looked up
-    one entry too early... *)
-Example one_entry_per_line_false_include_without_final_newline :
+    Three inputs on which the first version of the preprocessor produced a table out of step with
+    the text (an included file whose last logical line had no newline was glued to the next line
+    of the including file, or left an entry without text).  Lines of included files are now always
+    terminated, and entries and lines match. *)
+Example include_without_final_newline_now_ok :
   let fs := [("a.h", ["int x;"])] in
   let lines := ["#include ""a.h""" ++ nl; "int y;" ++ nl] in
-  macros_single_line [] /\ inputs_single_line lines fs /\
   exists p, run_cpp fs "m.c" [] lines = POk p /\
-            p_out p = "int x;int y;" ++ nl /\
+            p_out p = "int x;" ++ nl ++ "int y;" ++ nl /\
             rev (p_map p) = [("a.h", 1%N, Some ("m.c", 1%N)); ("m.c", 2%N, None)] /\
-            ~ entries_match_lines p.
+            entries_match_lines p.
 Proof.
-  cbv zeta. split; [constructor|]. split; [split; repeat constructor|].
-  eexists. split; [vm_compute; reflexivity|]. split; [reflexivity|]. split; [reflexivity|].
-  unfold entries_match_lines. vm_compute. discriminate.
+  cbv zeta. eexists. split; [vm_compute; reflexivity|]. split; [reflexivity|]. split; [reflexivity|].
+  unfold entries_match_lines. vm_compute. reflexivity.
 Qed.
 
-(** (b) an included file whose last line ends with backslash-newline: same effect *)
-Example one_entry_per_line_false_include_ending_in_splice :
+Example include_ending_in_splice_now_ok :
   let fs := [("a.h", ["int x;\" ++ nl])] in
   let lines := ["#include ""a.h""" ++ nl; "int y;" ++ nl] in
-  macros_single_line [] /\ inputs_single_line lines fs /\
-  physical_lines_terminated lines fs /\
   exists p, run_cpp fs "m.c" [] lines = POk p /\
-            p_out p = "int x;int y;" ++ nl /\
+            p_out p = "int x;" ++ nl ++ "int y;" ++ nl /\
             rev (p_map p) = [("a.h", 1%N, Some ("m.c", 1%N)); ("m.c", 2%N, None)] /\
-            ~ entries_match_lines p.
+            entries_match_lines p.
 Proof.
-  cbv zeta. split; [constructor|]. split; [split; repeat constructor|].
-  split; [split; repeat constructor|].
-  eexists. split; [vm_compute; reflexivity|]. split; [reflexivity|]. split; [reflexivity|].
-  unfold entries_match_lines. vm_compute. discriminate.
+  cbv zeta. eexists. split; [vm_compute; reflexivity|]. split; [reflexivity|]. split; [reflexivity|].
+  unfold entries_match_lines. vm_compute. reflexivity.
 Qed.
 
-(** (c) a last line without newline that expands to nothing: an entry with no text.  In the main
-    file this is a harmless trailing entry; at the end of an included file the table is one entry
-    too long from there on (two lines of text, three entries). *)
+(** the unterminated last line of the included file expands to nothing: it is now an empty line
+    of text with its own entry *)
+Example include_empty_last_line_now_ok :
+  let fs := [("a.h", ["int x;" ++ nl; "#define E" ++ nl; "E"])] in
+  let lines := ["#include ""a.h""" ++ nl; "int y;" ++ nl] in
+  exists p, run_cpp fs "m.c" [] lines = POk p /\
+            p_out p = "int x;" ++ nl ++ nl ++ "int y;" ++ nl /\
+            rev (p_map p) = [("a.h", 1%N, Some ("m.c", 1%N)); ("a.h", 3%N, Some ("m.c", 1%N));
+                             ("m.c", 2%N, None)] /\
+            entries_match_lines p.
+Proof.
+  cbv zeta. eexists. split; [vm_compute; reflexivity|]. split; [reflexivity|]. split; [reflexivity|].
+  unfold entries_match_lines. vm_compute. reflexivity.
+Qed.
+
+(** (c) the last line of the MAIN file, without newline, expands to nothing: an entry with no
+    text (a harmless trailing entry: no offset of the text can select it) *)
 Example one_entry_per_line_false_empty_last_line :
   let lines := ["#define E" ++ nl; "E"] in
   macros_single_line [] /\ inputs_single_line lines [] /\ physical_lines_terminated lines [] /\
   exists p, run_cpp [] "m.c" [] lines = POk p /\
             p_out p = "" /\ rev (p_map p) = [("m.c", 2%N, None)] /\
-            ~ entries_match_lines p.
-Proof.
-  cbv zeta. split; [constructor|]. split; [split; repeat constructor|].
-  split; [split; repeat constructor|].
-  eexists. split; [vm_compute; reflexivity|]. split; [reflexivity|]. split; [reflexivity|].
-  unfold entries_match_lines. vm_compute. discriminate.
-Qed.
-
-Example one_entry_per_line_false_include_empty_last_line :
-  let fs := [("a.h", ["int x;" ++ nl; "#define E" ++ nl; "E"])] in
-  let lines := ["#include ""a.h""" ++ nl; "int y;" ++ nl] in
-  macros_single_line [] /\ inputs_single_line lines fs /\ physical_lines_terminated lines fs /\
-  exists p, run_cpp fs "m.c" [] lines = POk p /\
-            p_out p = "int x;" ++ nl ++ "int y;" ++ nl /\
-            rev (p_map p) = [("a.h", 1%N, Some ("m.c", 1%N)); ("a.h", 3%N, Some ("m.c", 1%N));
-                             ("m.c", 2%N, None)] /\
             ~ entries_match_lines p.
 Proof.
   cbv zeta. split; [constructor|]. split; [split; repeat constructor|].
@@ -1429,26 +1440,32 @@ Qed.
 
 (** The true statement.  Added, clearly named, hypotheses:
     - [physical_lines_terminated]: every physical line but the last of each file ends with a
-      newline (a [read_line] fact);
-    - [included_files_closed]: the last logical line of every includable file ends with a newline;
-    - [file_closed lines]: the same for the main file.
+      newline (a [read_line] fact; only the main file's half is used);
+    - [file_closed lines]: the last logical line of the main file ends with a newline.
+    Included files need no such hypothesis: their lines are terminated by construction.
     Conclusion: [entries_match_lines], and more precisely the text is complete and the table has
     exactly as many entries as the text has newlines. *)
+Lemma run_L1 fs fname defs lines p :
+  macros_single_line defs -> inputs_single_line lines fs -> lines_terminated lines ->
+  run_cpp fs fname defs lines = POk p ->
+  Winv p /\ (file_closed lines -> Sinv p).
+Proof.
+  intros Hdefs [Hs1 Hs2] Ht Hrun. unfold run_cpp in Hrun.
+  eapply process_L1 in Hrun; [|exact Hs2|exact Hs1|right; exact Ht|apply Sinv_init; exact Hdefs].
+  destruct Hrun as [HW HS]. split; [exact HW|]. intros Hc. apply HS. right. exact Hc.
+Qed.
+
 Theorem one_entry_per_line : forall fs fname defs lines p
   (Hdefs : macros_single_line defs)
   (Hsingle : inputs_single_line lines fs)
   (Hterm : physical_lines_terminated lines fs)
-  (Hincl : included_files_closed fs)
   (Hmain : file_closed lines)
   (Hrun : run_cpp fs fname defs lines = POk p),
   entries_match_lines p /\
   complete (p_out p) = true /\ List.length (p_map p) = count_nl (p_out p).
 Proof.
-  intros. destruct Hsingle as [Hs1 Hs2]. destruct Hterm as [Ht1 Ht2].
-  unfold run_cpp in Hrun.
-  eapply process_L1 in Hrun; [| split; [exact Hs2|split; [exact Ht2|exact Hincl]] |exact Hs1|exact Ht1
-                              |apply Sinv_init; exact Hdefs].
-  destruct Hrun as [_ HS]. specialize (HS Hmain).
+  intros. destruct Hterm as [Ht1 _].
+  destruct (run_L1 _ _ _ _ _ Hdefs Hsingle Ht1 Hrun) as [_ HS]. specialize (HS Hmain).
   split; [apply Sinv_match; exact HS|]. destruct HS as [_ HS]. exact HS.
 Qed.
 Print Assumptions one_entry_per_line.
@@ -1459,17 +1476,29 @@ Theorem one_entry_per_line_open_main : forall fs fname defs lines p
   (Hdefs : macros_single_line defs)
   (Hsingle : inputs_single_line lines fs)
   (Hterm : physical_lines_terminated lines fs)
-  (Hincl : included_files_closed fs)
   (Hrun : run_cpp fs fname defs lines = POk p),
   entries_cover_lines p.
 Proof.
-  intros. destruct Hsingle as [Hs1 Hs2]. destruct Hterm as [Ht1 Ht2].
-  unfold run_cpp in Hrun.
-  eapply process_L1 in Hrun; [| split; [exact Hs2|split; [exact Ht2|exact Hincl]] |exact Hs1|exact Ht1
-                              |apply Sinv_init; exact Hdefs].
-  destruct Hrun as [[_ HW] _]. exact HW.
+  intros. destruct Hterm as [Ht1 _].
+  destruct (run_L1 _ _ _ _ _ Hdefs Hsingle Ht1 Hrun) as [[_ HW] _]. exact HW.
 Qed.
 Print Assumptions one_entry_per_line_open_main.
+
+(** the same with the termination hypothesis on the main file only *)
+Theorem one_entry_per_line_main_only : forall fs fname defs lines p
+  (Hdefs : macros_single_line defs)
+  (Hsingle : inputs_single_line lines fs)
+  (Hterm : lines_terminated lines)
+  (Hrun : run_cpp fs fname defs lines = POk p),
+  entries_cover_lines p /\
+  (file_closed lines ->
+   entries_match_lines p /\ complete (p_out p) = true /\ List.length (p_map p) = count_nl (p_out p)).
+Proof.
+  intros. destruct (run_L1 _ _ _ _ _ Hdefs Hsingle Hterm Hrun) as [[_ HW] HS].
+  split; [exact HW|]. intros Hc. specialize (HS Hc).
+  split; [apply Sinv_match; exact HS|]. destruct HS as [_ HS]. exact HS.
+Qed.
+Print Assumptions one_entry_per_line_main_only.
 
 (** a simple sufficient condition for [file_closed]: every line is terminated, none is continued *)
 Lemma splice_no_continuation (f : nat) (buf : string) (rest : list string) (extra : N) :
@@ -1755,7 +1784,6 @@ Theorem lookup_finds_an_origin : forall fs fname defs lines p
   (Hdefs : macros_single_line defs)
   (Hsingle : inputs_single_line lines fs)
   (Hterm : physical_lines_terminated lines fs)
-  (Hincl : included_files_closed fs)
   (Hmain : file_closed lines)
   (Hrun : run_cpp fs fname defs lines = POk p),
   exists ls,
@@ -1766,7 +1794,7 @@ Theorem lookup_finds_an_origin : forall fs fname defs lines p
       offset_to_line (p_out p) (String.length (String.concat "" (firstn k ls)) + off) = k /\
       exists e, nth_error (rev (p_map p)) k = Some e /\ origin fs fname None lines e.
 Proof.
-  intros. destruct (one_entry_per_line _ _ _ _ _ Hdefs Hsingle Hterm Hincl Hmain Hrun) as [_ [Hc Hlen]].
+  intros. destruct (one_entry_per_line _ _ _ _ _ Hdefs Hsingle Hterm Hmain Hrun) as [_ [Hc Hlen]].
   destruct (complete_lines _ Hc) as [ls [Hs [Hf Hl]]].
   exists ls. split; [exact Hs|]. split; [exact Hf|]. split; [lia|].
   intros k l off Hk Hoff. split.
